@@ -63,6 +63,7 @@ def features(d, path):
         out.append(["qattr_ancestor", p])
         out.append(["qattr_redeclared", p])
     out.append(["qattr_here", p])
+    out.append(["qattr_other_prefix", p])
     out.append(["qattr_here_special", p])
     for a in ATTRS:
         out.append(["attr", p, a])
@@ -109,6 +110,10 @@ def apply(doc, devs):
         elif kind == "qattr_here":
             _ensure_decl(e, "p", U1) if not any(x[0] == "p" for x in e["nsdecl"]) else None
             e["attrs"].append(["p:attr", "w"])
+        elif kind == "qattr_other_prefix":
+            # the URI that other documents / other elements bind to p is bound to r here
+            _ensure_decl(e, "r", U1)
+            e["attrs"].append(["r:attr", "w3"])
         elif kind == "qattr_here_special":
             _ensure_decl(e, "p", U1) if not any(x[0] == "p" for x in e["nsdecl"]) else None
             e["attrs"].append(["p:attr", "say &quot;hi&quot; &amp; &lt;go&gt; 'x'"])
@@ -142,8 +147,25 @@ def apply(doc, devs):
     return d
 
 
+def _ns_wellformed(e, scope):
+    scope = dict(scope)
+    for pf, uri in e["nsdecl"]:
+        scope[pf] = uri
+    seen = set()
+    for k, _v in e["attrs"]:
+        if ":" in k and not k.startswith("xml:"):
+            pf, local = k.split(":", 1)
+            key = (scope.get(pf), local)
+            if key in seen:
+                return False        # two attributes with the same expanded name: not namespace-well-formed
+            seen.add(key)
+    return all(_ns_wellformed(c, scope) for c in e["children"])
+
+
 def in_quantifier(d):
-    """comments only directly between tags: no text on either side"""
+    """comments only directly between tags: no text on either side; documents must be namespace-well-formed"""
+    if not _ns_wellformed(d, {}):
+        return False
     for _, e in walk(d):
         for slot in e["comments"]:
             if slot == 0:
